@@ -169,6 +169,16 @@ func (w *World) ledgerProbes(full bool, withIGP bool) []Probe {
 			}
 		}
 	}
+	// a fee list that is valid entry by entry but whose TOTAL does not fit 256 bits: refused in the middle of the computation —
+	// whatever the computation had gathered by then must be gone when the next packet arrives (seed C02i kept it in the controller)
+	for _, f := range []Fwd{w.FwdInternal(w.Bob), w.FwdCCTP(0)} {
+		f := f
+		fees := []FeeSpec{{To: w.Fee2.String(), Fixed: "400"}, {To: w.Fee1.String(), Fixed: maxUint256Str}}
+		out = append(out, mk(orbEnc[0], memoM{fmt.Sprintf("%s/fee-total-overflows", f), Memo(f, fees), &f, fees}, "channel-0", denomUSDC, "100000", false))
+		// ... and the NEXT packet (probes of one state are delivered in this order by one instance) is an ordinary transfer with a fee
+		next := w.feeMenu()[1]
+		out = append(out, mk(orbEnc[0], memoM{fmt.Sprintf("%s/fee1/right-after-a-refused-fee-computation", f), Memo(f, next), &f, next}, "channel-0", denomUSDC, "100000", false))
+	}
 	// top of the range: 2^256-1 of ubig through the internal route
 	for fi, fees := range w.feeMenu()[:3] {
 		f := w.FwdInternal(w.Bob)
